@@ -567,6 +567,14 @@ class _Tok:
     pass
 
 
+class _Scan:
+    """opaque iterable: a generator expression over the (abstract) list of parameters parsed so far"""
+    is_abstract_iterable = True
+
+    def __init__(self, desc):
+        self.desc = desc
+
+
 class ParseSignature(VC):
     """Parser.parse_signature over an arbitrary token stream (unbounded number of parameters).
 
@@ -650,7 +658,7 @@ class ParseSignature(VC):
             s_err = st.fork()
             out = [(s_err, syntax_error(s_err, node, "parse_assign_target"))]
             advance(st)
-            r = st.alloc(HObj(N.Name, fields={"name": fresh("pname", "str"), "ctx": "store"}, path="param"))
+            r = st.alloc(HObj(N.Name, fields={"name": fresh("pname", "str"), "ctx": "store", "lineno": fresh("plineno", "int")}, path="param"))
             st.get(r).plain_setattr = True
             g = c._g(st)
             c._set(st, P=z3.Store(g["P"], g["k"], to_term(r, "obj")), CT=z3.Store(g["CT"], g["k"], z3.BoolVal(False)), k=g["k"] + 1)
@@ -682,6 +690,24 @@ class ParseSignature(VC):
         I.specs["Parser.parse_assign_target"] = parse_assign_target
         I.specs["Parser.parse_expression"] = parse_expression
         I.specs["Name.set_ctx"] = set_ctx
+
+        # a scan of the parameters parsed so far (e.g. the duplicate-name check `any(a.name == arg.name for a in args)`):
+        # an opaque iterable whose any()/all() is an arbitrary boolean (distinctness of the names is C01's obligation)
+        def comp_abstract(I_, e, g, st, cfr, itv, elt_fn):
+            return [(st, _Scan(ast.unparse(e)[:60]))]
+
+        I.specs["comp_abstract"] = comp_abstract
+        for fn_ in (any, all):
+            base = I.specs.get(("fn", id(fn_)))
+
+            def scan_bool(I_, st, args, kwargs, node, base=base, nm=fn_.__name__):
+                if args and isinstance(args[0], _Scan):
+                    return [(st, fresh(f"{nm}_scan", "bool"))]
+                if base is None:
+                    raise Unsupported(f"{nm}() of a concrete iterable in parse_signature", node)
+                return base(I_, st, args, kwargs, node)
+
+            I.specs[("fn", id(fn_))] = scan_bool
 
         def inv(ctx):
             return c.aligned(ctx.st, loop_head=True)
